@@ -94,6 +94,22 @@ Definition construction_sizes_fit_stmt : Prop :=
     (nstates (built_automaton b) < max_st - 1)%N /\
     (forall s, In s (states (built_automaton b)) -> (s < max_st - 1)%N).
 
+(* the boundary, on the construction mirror: what a wide type builds with n states, a narrower
+   type (same oracles) with n >= MAX - 1 refuses ([Panic]: the mirror has ONE refusal outcome for
+   pager.rs, StateGraph::new and StateTable::new, as the code has one text since /repo 394c6e3),
+   and a narrower type that does return returns the same thing with n < MAX - 1.  (The converse
+   of the first part does not hold per se: the Pager loop may run out of indices on states that
+   gc would have removed.) *)
+Definition construction_state_count_refused_stmt : Prop :=
+  forall g tp pp max_st max_st' fuel orders tos b, wf_grammar g = true -> prec_consistent tp pp ->
+    (max_st <= max_st')%N ->
+    from_yacc_mirror g tp pp max_st' fuel orders tos = Done (Some b) ->
+    ((max_st - 1 <= nstates (built_automaton b))%N ->
+       from_yacc_mirror g tp pp max_st fuel orders tos = Panic /\ storage_check_fired g max_st fuel orders) /\
+    (from_yacc_mirror g tp pp max_st fuel orders tos <> Panic ->
+       from_yacc_mirror g tp pp max_st fuel orders tos = Done (Some b) /\
+       (nstates (built_automaton b) < max_st - 1)%N).
+
 (* ---- (2) parse results --------------------------------------------------------------------- *)
 
 (* a successful run on an LR(1) grammar reports no conflict and passes every validator —
